@@ -1439,8 +1439,49 @@ class Net(Stream):
                 nontriv += 1
             if len(samples) < 3:
                 samples.append({"case": line.split(" ", 1)[1][:300], "impl": i[:300]})
-        return {"evaluations": len(cases), "distinct_nontrivial": nontriv, "rule": self.rule, "samples": samples, "histogram": hist,
-                "disagreements": [], "failures": fails, "timing_retries": retried, "not_reproduced_alone": transient, "model_impl_agree": len(cases)}
+        res = {"evaluations": len(cases), "distinct_nontrivial": nontriv, "rule": self.rule, "samples": samples, "histogram": hist,
+               "disagreements": [], "failures": fails, "timing_retries": retried, "not_reproduced_alone": transient, "model_impl_agree": len(cases)}
+        if self.focus == "timing":
+            self.timed_model_side(cases, tier, res)
+        return res
+
+    def timed_model_side(self, cases, tier, res):
+        """the extracted timed machines (Timed.v: retry loop, TCP fallback, TCP reads of both client families, exact
+        timers) on the very scenarios the real clients just ran, and on random scenarios with arrivals on and around
+        the attempt / lifetime boundaries (no network): transmissions, exchanges, result and the end of the call must
+        be what the code-blind expectation says — which the real clients were just held to within the tolerance"""
+        import random as _r
+        lines, info = [], {}
+        for line in cases:
+            cid = line.split(" ", 1)[0]
+            sc = self.scen.get(cid)
+            if sc is None or len(sc.queries) != 1:
+                continue
+            ml = NG.timed_model_line("m" + cid, sc, sc.queries[0])
+            if ml:
+                lines.append(ml)
+                info["m" + cid] = (sc, line)
+        rng = _r.Random(len(cases) * 7919 + int(os.environ.get("VERIF_SEED", "20260930")))
+        for i in range(600 if tier == "quick" else 6000):
+            sc = NG.gen_timed_random(rng, NG.CLIENTS[i % 4])
+            ml = NG.timed_model_line("r%d" % i, sc, sc.queries[0])
+            if ml:
+                lines.append(ml)
+                info["r%d" % i] = (sc, sc.line("r%d" % i))
+        model = C.run_model(lines)
+        dis, kinds = [], {}
+        for cid, (sc, line) in info.items():
+            m = model.get(cid, "MISSING")
+            why = NG.timed_model_vs_oracle(sc, sc.queries[0], m)
+            k = (m.split(" T=")[0].split("EV=")[-1] + " " + re.sub(r"^ok:.*", "ok", m.split(" R=")[-1]))[:40]
+            kinds[k] = kinds.get(k, 0) + 1
+            if why:
+                dis.append({"stream": self.name, "case": line, "model": m[:300], "why": "[%s machine] timed model vs expectation: %s" % (sc.client, why)})
+        res["timed_model_cases"] = len(info)
+        res["timed_model_histogram"] = kinds
+        res["evaluations"] += len(info)
+        res["disagreements"] += dis
+        res["model_impl_agree"] = res["evaluations"] - len(dis)
 
     def classify(self, line, impl):
         sc = self.scen.get(line.split(" ", 1)[0])
